@@ -1,5 +1,5 @@
 (* C07 monitor runner.
-   hold <srchex> <toks>    toks = "." or tok;tok;...  tok = kindcode:data:line:col:quote:ml:value
+   hold <srchex> <toks>    toks = "." or tok;tok;...  tok = kindcode:data:line:col:quote:ml:value:strvalue
                            (ml = N | S<hex>; value = num/den as [-]0x<hex> | _ )
      -> true | false:<index>:<field>:<ref kind code or ->:<ref raw hex>
    err <srchex>            the implementation raised on this source -> true|false
@@ -39,14 +39,15 @@ let z_of_bigstr s =
   match !p with None -> Z0 | Some q -> if neg then Zneg q else Zpos q
 let parse_tok s =
   match String.split_on_char ':' s with
-  | [k; d; l; c; q; ml; v] ->
+  | [k; d; l; c; q; ml; v; sv] ->
     { i_kind = z_of_str k; i_data = bytes_of_hex d; i_line = z_of_str l; i_col = z_of_str c;
       i_quote = bytes_of_hex q;
       i_ml = (if ml = "N" then None else Some (bytes_of_hex (String.sub ml 1 (String.length ml - 1))));
       i_val = (if v = "_" then None else
                match String.split_on_char '/' v with
                | [n; d] -> Some (z_of_bigstr n, z_of_bigstr d)
-               | _ -> failwith "bad value") }
+               | _ -> failwith "bad value");
+      i_sval = bytes_of_hex sv }
   | _ -> failwith "bad token"
 let parse_toks s = if s = "." then [] else List.map parse_tok (String.split_on_char ';' s)
 let handle fields =
